@@ -275,3 +275,93 @@ class BNCopy(Contract):
 
 
 register(BNCopy())
+
+
+# --------------------------------------------------------------------------------------------------- DBN.add_edge
+from vf.pyvc.engine import I, TupleV
+from vf.pyvc.lib import DN, dn_name, dn_slice, ensure_dn, is_dn
+
+
+def dbn_inv(ex, g):
+    """two-slice template invariant: nodes are DynamicNodes of slice 0/1, intra-slice edges are mirrored in both slices,
+    no edge leads from slice 1 back to slice 0, and the graph is acyclic."""
+    ensure_dn(ex)
+    th = ex.lib.theory(ex)
+    E, Nn = g.fields["@E"], g.fields["@nodes"]
+    n, a, b = fresh("n", Atom), fresh("a", Atom), fresh("b", Atom)
+    return z3.And(
+        wf_graph(g),
+        z3.ForAll([n], z3.Implies(Nn[n], z3.And(is_dn(n), z3.Or(dn_slice(n) == 0, dn_slice(n) == 1)))),
+        z3.ForAll([a, b], E[DN(a, 0), DN(b, 0)] == E[DN(a, 1), DN(b, 1)]),
+        z3.ForAll([a, b], z3.Implies(E[a, b], dn_slice(a) <= dn_slice(b))),
+        th.acyclic(E),
+    )
+
+
+class DBNAddEdge(Contract):
+    file = "pgmpy/models/DynamicBayesianNetwork.py"
+    qual = "DynamicBayesianNetwork.add_edge"
+
+    def variants(self, ex):
+        g = new_graph("DynamicBayesianNetwork", "dbn")
+        start = TupleV([atom("sa", "str"), Scalar(z3.Const("st", I))])
+        end = TupleV([atom("ea", "str"), Scalar(z3.Const("et", I))])
+        yield "any", {"self": g, "start": start, "end": end}, {"dynamic_nodes": True}
+
+    def pre(self, ex, st, args):
+        return dbn_inv(ex, args["self"])
+
+    def snapshot(self, ex, st, args):
+        return graph_snapshot(args["self"])
+
+    def norm(self, args):
+        sa, stt = args["start"].items[0].z, args["start"].items[1].z
+        ea, ett = args["end"].items[0].z, args["end"].items[1].z
+        same = stt == ett
+        s = DN(sa, 0)
+        e = z3.If(same, DN(ea, 0), DN(ea, 1))
+        return sa, stt, ea, ett, same, s, e
+
+    def raises(self, ex, st, args):
+        g = args["self"]
+        sa, stt, ea, ett, same, s, e = self.norm(args)
+        P = ex.lib.theory(ex).path(g.fields["@E"])
+        ok_slices = z3.Or(same, stt == ett - 1)
+        return {"NotImplementedError": z3.And(z3.Not(ok_slices), stt > ett),
+                "ValueError": z3.Or(z3.And(z3.Not(ok_slices), z3.Not(stt > ett)),
+                                    z3.And(ok_slices, z3.Or(s == e, z3.And(N_(g, s), N_(g, e), P(e, s)))))}
+
+    def on_raise(self, ex, st, args, old, exc):
+        return graph_unchanged(args["self"], old)
+
+    def post(self, ex, st, args, old, result):
+        g = args["self"]
+        th = ex.lib.theory(ex)
+        sa, stt, ea, ett, same, s, e = self.norm(args)
+        E0, E1 = old["@E"], g.fields["@E"]
+        P0 = th.path(E0)
+        s1, e1 = DN(sa, 1), DN(ea, 1)
+        a, b = fresh("a", Atom), fresh("b", Atom)
+        # ghost lemmas (leastness instances):
+        #  (1) paths that start in slice 1 stay in slice 1 and have a twin path in slice 0
+        st.assume(th.induct_rel(E0, lambda x, y: z3.Implies(dn_slice(x) == 1, z3.And(dn_slice(y) == 1, z3.Or(x == y, P0(DN(dn_name(x), 0), DN(dn_name(y), 0)))))))
+        #  (2) paths never go back from slice 1 to slice 0 (monotone slices)
+        st.assume(th.induct_rel(E0, lambda x, y: dn_slice(x) <= dn_slice(y)))
+        #  (3) L1 for the edge set with (s,e) added, and for the final edge set
+        Emid = z3.Lambda([a, b], z3.Or(E0[a, b], z3.And(a == s, b == e)))
+        Pm = th.path(Emid)
+        st.assume(th.induct_rel(Emid, lambda x, y: z3.Or(P0(x, y), z3.And(P0(x, s), P0(e, y)))))
+        st.assume(th.induct_rel(E1, lambda x, y: z3.Or(Pm(x, y), z3.And(same, Pm(x, s1), Pm(e1, y)))))
+        #  (4) a name that is not a node has no outgoing / incoming path
+        for nd in (s, e, s1, e1):
+            st.assume(th.induct_forward(E0, z3.Store(empty_set(Atom), nd, True)))
+            st.assume(th.induct_backward(E0, z3.Store(empty_set(Atom), nd, True)))
+        return {
+            "edges": z3.ForAll([a, b], E1[a, b] == z3.Or(E0[a, b], z3.And(a == s, b == e), z3.And(same, a == s1, b == e1))),
+            "nodes": z3.ForAll([a], g.fields["@nodes"][a] == z3.Or(old["@nodes"][a], a == s, a == e, z3.And(same, z3.Or(a == s1, a == e1)),
+                                                                  z3.And(z3.Not(same), a == DN(ea, 0)))),
+            "invariant-preserved": dbn_inv(ex, g),
+        }
+
+
+register(DBNAddEdge())
